@@ -164,6 +164,10 @@ func (g *gen) richInit(code string) string {
 		for i := 0; i < n; i++ {
 			items = append(items, key(kv[0], off+i)+"="+sv(kv[1]))
 		}
+		if kv[0] == "str" && kv[1] == "str" && g.chance(0.35) {
+			// a key that makes the writer quote the whole entry, with a value that needs quotes of its own
+			items = append(items, "s:"+hx([]string{"tab\tkey", "\"lead", "nl\nkey2"}[g.r.Intn(3)])+"=s:"+hx([]string{" lead", "trail ", "\"q\"", "tab\tv", "é\x00"}[g.r.Intn(5)]))
+		}
 		return "M[" + strings.Join(items, ",")
 	}
 	return "v" + sv(code)
@@ -285,6 +289,10 @@ func checkC12(c *Ctx, n int) {
 	}
 	for i := 0; i < n; i++ {
 		g := &gen{r: c.Rng, p: p}
+		if i%4 == 3 {
+			// strings, slices and maps of strings: where quoting happens
+			g.p.OnlyTypes = []string{"Mstr,str", "Mstr,str", "str", "Lstr", "Mint,str", "Mstr,bool", "Pstr", "c0"}
+		}
 		cs := g.genCase()
 		for bi := range cs.Build {
 			if cs.Build[bi].Struct != nil {
